@@ -26,7 +26,9 @@ Uniform(ls) == LET all == 1..Len(ls) IN <<Render(ls, {}, TRUE), Render(ls, {}, F
 Mixed(ls) == IF Len(ls) > 4 THEN <<>>
              ELSE SetToSeq({Render(ls, c, TRUE) : c \in SUBSET (1..Len(ls))} \cup {Render(ls, c, FALSE) : c \in SUBSET (1..Len(ls))})
 ASSUME \A st \in FaStructs : PrintT(<<"GROUP", ToJson([fmt |-> "fasta", r |-> Uniform(FaFileLines(st)) \o Mixed(FaFileLines(st))])>>)
-ASSUME \A st \in FqStructs : PrintT(<<"GROUP", ToJson([fmt |-> "fastq", r |-> Uniform(FqFileLines(st))])>>)
+\* a FASTQ file whose last quality line is empty cannot drop its final terminator (the line would vanish)
+FqUniform(ls) == IF ls[Len(ls)] = <<>> THEN <<Render(ls, {}, TRUE), Render(ls, 1..Len(ls), TRUE)>> ELSE Uniform(ls)
+ASSUME \A st \in FqStructs : PrintT(<<"GROUP", ToJson([fmt |-> "fastq", r |-> FqUniform(FqFileLines(st))])>>)
 VARIABLE dummy
 Spec == dummy = 0 /\ [][UNCHANGED dummy]_dummy
 =============================================================================
